@@ -273,6 +273,8 @@ package secp256k1
 
 //@ func Element.multiply
 //@   mode int
+//@   props C19
+//@   sched_except sv(s) == Fn(1)
 //@   requires inv(e) && wfs(s)
 //@   uses nint_range(sv(s)), hi_top(fint(sv(s))), hi_zero(fint(sv(s))), smul_zero(pt(e)), smul_one(pt(e)), valid_identity()
 //@   ensures mul [C01,C10]: inv(e) && pt(e) == smul(fint(sv(s)), old(pt(e)))
@@ -290,6 +292,8 @@ package secp256k1
 
 //@ func Element.Multiply
 //@   mode int
+//@   props C19
+//@   sched_except sv(scalar) == Fn(1)
 //@   nilable scalar
 //@   requires inv(e) && (isnil(scalar) || wfs(scalar))
 //@   ensures mul [C01,C10]: imp(!isnil(scalar), inv(e) && pt(e) == smul(fint(sv(scalar)), old(pt(e))))
@@ -585,3 +589,84 @@ package secp256k1
 //@   ensures_panics empty [C08]: slen(str(dst)) == 0
 //@   ensures pt [C08]: inv(result) && pt(result) == gadd(mapc(h2f(str(input), str(dst), 96, 0)), mapc(h2f(str(input), str(dst), 96, 1)))
 //@   returns fresh
+
+// ---- remaining API surface ----
+//@ declare powmod(Int, Int, Int) Int
+
+//@ func Scalar.Pow
+//@   mode int
+//@   nilable t
+//@   requires wfs(s) && (isnil(t) || wfs(t))
+//@   uses nint_range(sv(s)), nint_range(sv(t)), nofint_fint(powmod(fint(sv(s)), fint(sv(t)), N))
+//@   ensures one [C06]: imp(isnil(t) || old(sv(t)) == Fn(0), wfs(s) && sv(s) == Fn(1))
+//@   ensures id [C06]: imp(!isnil(t) && old(sv(t)) == Fn(1), unchanged(s))
+//@   ensures pow [C06]: imp(!isnil(t) && old(sv(t)) != Fn(0) && old(sv(t)) != Fn(1), wfs(s) && fint(sv(s)) == powmod(fint(old(sv(s))), fint(old(sv(t))), N))
+//@   modifies *s
+//@   returns s
+
+//@ func NewScalar
+//@   mode int
+//@   ensures z [C10]: wfs(result) && sv(result) == Fn(0)
+//@   returns fresh
+
+//@ func Order
+//@   mode int
+//@   props C15, C16
+//@   ensures n [C15]: os2ip(result) == N
+//@   returns fresh:32
+
+//@ func Element.MarshalBinary
+//@   mode int
+//@   props C04, C15
+//@   requires inv(e)
+//@   ensures ok: result1 == 0
+//@   returns fresh:1|33
+
+//@ func Element.UnmarshalBinary
+//@   mode int
+//@   props C15
+//@   lens data 0,1,2,32,33,34,64,65,66,*
+//@   requires wf3(e)
+//@   ensures acc [C03]: (result == 0) == (accI(data) || accC(data) || accU(data))
+//@   ensures err [C03]: imp(result != 0, unchanged(e))
+//@   modifies *e
+
+//@ func Element.Hex
+//@   mode int
+//@   props C04
+//@   requires inv(e)
+//@   uses pt_identity_iff(fv(e.x), fv(e.y), fv(e.z))
+//@   ensures id [C04]: imp(len(hexbytes(result)) == 1, pt(e) == gzero())
+//@   ensures pt [C04]: imp(len(hexbytes(result)) == 33, pt(e) != gzero() && os2ip(hexbytes(result)[1:33]) == fint(affx(pt(e))))
+
+//@ func Element.DecodeHex
+//@   mode int
+//@   requires wf3(e)
+//@   ensures acc [C03]: (result == 0) == (hexvalid(h) && (accI(hexbytes(h)) || accC(hexbytes(h)) || accU(hexbytes(h))))
+//@   ensures err [C03]: imp(result != 0, unchanged(e))
+//@   modifies *e
+
+// ---- C15 / C16: every exported function and method of the package; their frame obligations (cells of every
+// pre-existing object outside `modifies` are unchanged; no write to a package-level variable; returned slices
+// are fresh) are what these two properties rest on ----
+//@ proptag C15, C16: ^secp256k1\.([A-Z][A-Za-z0-9]*|(Element|Scalar)\.[A-Z][A-Za-z0-9]*)$
+
+//@ func Element.Add
+//@   mode int
+//@   nilable element
+//@   requires inv(e) && (isnil(element) || inv(element))
+//@   ensures sum [C02,C10]: imp(!isnil(element), inv(e) && pt(e) == gadd(old(pt(e)), old(pt(element))))
+//@   ensures nil [C02]: imp(isnil(element), unchanged(e))
+//@   modifies *e
+//@   returns e
+
+//@ func Ciphersuite
+//@   mode int
+
+//@ func ScalarLength
+//@   mode int
+//@   ensures n: result == 32
+
+//@ func ElementLength
+//@   mode int
+//@   ensures n: result == 33
